@@ -424,10 +424,15 @@ func ruleC07ArchiveSuffix(c *Checker) {
 	p := c.P
 	want := map[string]bool{".tar.gz": false, ".tgz": false}
 	n := 0
-	for _, fn := range p.Funcs {
-		if fn.Package() == nil || fn.Package().Pkg.Path() != p.PkgPath("sourceaddrs") || !strings.Contains(p.FuncName(fn), "httpSourceType") {
-			continue
-		}
+	rules, _ := srcTypeRules(p)
+	var httpFns []*ssa.Function
+	if f := rules["https"]; f != nil {
+		httpFns = append(httpFns, f)
+	}
+	if f := rules["http"]; f != nil && f != rules["https"] {
+		httpFns = append(httpFns, f)
+	}
+	for _, fn := range httpFns {
 		for _, h := range sortedFuncs(p.family(fn)) {
 			for _, ci := range callsTo(h, func(o *types.Func) bool { return isFunc(o, "strings", "HasSuffix") }) {
 				k, isC := constString(ci.Common().Args[1])
